@@ -6,5 +6,6 @@ CONSTANTS
   ThresholdChecked = TRUE
   ProbeRefusals = FALSE
   MinOps = 0
+  Deep = FALSE
 INVARIANTS SignedLoads
 CHECK_DEADLOCK FALSE
